@@ -181,6 +181,8 @@ def single_step(ctx):
             for st in field_refs(f, cls):
                 if st["m"]["name"] != "m_obj":
                     continue
+                if path(f, f.s(st.get("base"))) not in ("this", "*this", None):
+                    continue        # the payload of ANOTHER wrapper (the source of a copy / move assignment)
                 acc, user = effective_access(eng, f, st)
                 if acc in READ_KINDS:
                     continue
